@@ -52,16 +52,37 @@ def _alarm(signum, frame):
 
 
 class FuncTrace:
-    """records which rsatoolbox functions were entered (evidence: 'functions encoded')"""
+    """records which rsatoolbox functions were entered (evidence: 'functions encoded').
+    Uses sys.monitoring (PEP 669): every code object reports once and is then disabled, so the cost is negligible
+    (sys.setprofile slowed z3-heavy configurations by an order of magnitude)."""
+    TOOL = 3
 
     def __init__(self):
         self.seen = set()
 
-    def __call__(self, frame, event, arg):
-        if event == 'call':
-            fn = frame.f_code.co_filename
-            if '/rsatoolbox/' in fn:
-                self.seen.add(fn.split('/rsatoolbox/')[-1][:-3].replace('/', '.') + ':' + frame.f_code.co_name)
+    def start(self):
+        mon = sys.monitoring
+        try:
+            mon.use_tool_id(self.TOOL, 'symx-functrace')
+        except ValueError:
+            pass
+        mon.register_callback(self.TOOL, mon.events.PY_START, self._cb)
+        mon.set_events(self.TOOL, mon.events.PY_START)
+
+    def stop(self):
+        mon = sys.monitoring
+        mon.set_events(self.TOOL, 0)
+        mon.register_callback(self.TOOL, mon.events.PY_START, None)
+        try:
+            mon.restart_events()
+        except Exception:
+            pass
+
+    def _cb(self, code, offset):
+        fn = code.co_filename
+        if '/rsatoolbox/' in fn:
+            self.seen.add(fn.split('/rsatoolbox/')[-1][:-3].replace('/', '.') + ':' + code.co_name)
+        return sys.monitoring.DISABLE
 
 
 def worker(prop, tier, idxs, outpath, seed):
@@ -85,10 +106,11 @@ def worker(prop, tier, idxs, outpath, seed):
             if cfg['case'] not in traced_cases:
                 traced_cases.add(cfg['case'])
                 tracer = FuncTrace()
-                sys.setprofile(tracer)
+                tracer.start()
             budget = getattr(H, 'CFG_BUDGET_S', {}).get(tier, 150 if tier == 'quick' else 900)
             core.C.deadline = time.time() + budget
             core.C.skip_unknown = bool(getattr(H, 'SKIP_UNKNOWN_BRANCHES', False))
+            core.C.assume_pos_sqrt = bool(getattr(H, 'ASSUME_SQRT_ARGS_POSITIVE', False))
             core.C.feas_timeout = getattr(H, 'FEAS_TIMEOUT_MS', 10000)
             fu0 = core.C.stats.get('feas_unknown', 0)
             signal.signal(signal.SIGALRM, _alarm)
@@ -103,7 +125,7 @@ def worker(prop, tier, idxs, outpath, seed):
                 signal.alarm(0)
                 core.C.deadline = None
                 if tracer:
-                    sys.setprofile(None)
+                    tracer.stop()
             # replay candidate counterexamples on the unmodified float implementation
             fails = []
             seen_keys = {}
